@@ -70,8 +70,10 @@ package aggoracle
 // ---- the oracle's loop (C15): every tick runs one processLatestGER on the same retained-block cell; its
 // precondition (a retained block was sampled with the configured finality) is an invariant of the loop, so the
 // per-tick statements above hold on every tick of every run, and nothing else in the loop injects
+// (only logs: proved to write nothing, so a tick's error path cannot touch the retained block or inject)
 //@ func (a *AggOracle) handleGERProcessingError (a, err, blockNumToFetch)
-//@   trusted
+//@   props C15
+//@   requires a != nil && a.logger != nil
 //@   modifies nothing
 //@ func (a *AggOracle) Start (a, ctx)
 //@   props C15
